@@ -133,6 +133,26 @@ func genEAN(t *rapid.T) string {
 	case 15: // multi-byte runes making a "right" byte length
 		n := rapid.SampledFrom([]int{5, 6, 10, 11}).Draw(t, "n")
 		return digits(n) + rapid.SampledFrom([]string{"é", "٣", "１", "ñ"}).Draw(t, "mb")
+	case 16: // one non-ASCII rune spliced in so that the BYTE length is 7, 8, 12 or 13: digits of other scripts,
+		// runes whose low byte is an ASCII digit, arbitrary runes
+		var r rune
+		switch rapid.IntRange(0, 2).Draw(t, "rk") {
+		case 0:
+			r = rapid.SampledFrom(nonASCIIDigits).Draw(t, "nd")
+		case 1:
+			r = aliasRune(byte('0'+rapid.IntRange(0, 9).Draw(t, "ad")), rapid.IntRange(0, 199).Draw(t, "ak"))
+		default:
+			r = rune(rapid.IntRange(0x80, 0x2FFFF).Draw(t, "anyrune"))
+			if r >= 0xD800 && r <= 0xDFFF {
+				r = 0x3031
+			}
+		}
+		rs := string(r)
+		target := rapid.SampledFrom([]int{7, 8, 12, 13}).Draw(t, "target")
+		nd := target - len(rs)
+		pos := rapid.IntRange(0, nd).Draw(t, "pos")
+		d := digits(nd)
+		return d[:pos] + rs + d[pos:]
 	default:
 		n := rapid.SampledFrom([]int{7, 8, 12, 13}).Draw(t, "n")
 		return digits(n)
